@@ -13,6 +13,7 @@ struct Prog {
     log: Mutex<Vec<String>>,
     delay_seed: u64,
     slow_ms: u64,
+    rev_ms: u64,
     ctr: std::sync::atomic::AtomicU64,
 }
 impl Prog {
@@ -42,6 +43,11 @@ impl jbk::creator::Progress for Prog {
         // slow compression workers: the producer outruns them and meets the back-pressure limit
         if compressed && self.slow_ms != 0 {
             std::thread::sleep(std::time::Duration::from_millis(self.slow_ms));
+        }
+        // reversed completion: the earlier a cluster was closed the longer its worker holds it, so that with several
+        // workers the clusters reach the writer in decreasing index order
+        if compressed && self.rev_ms != 0 {
+            std::thread::sleep(std::time::Duration::from_millis(self.rev_ms * (24 - (idx as u64).min(23))));
         }
         self.ev(format!("handle:{}:{}", idx, compressed as u8));
     }
@@ -82,6 +88,7 @@ pub fn run(c: &Case, tmp: &std::path::Path) -> Vec<String> {
         log: Mutex::new(vec![]),
         delay_seed: c.po("delays").map(|s| s.parse().unwrap()).unwrap_or(0),
         slow_ms: c.po("slow").map(|s| s.parse().unwrap()).unwrap_or(0),
+        rev_ms: c.po("rev").map(|s| s.parse().unwrap()).unwrap_or(0),
         ctr: Default::default(),
     });
     let creator = ContentPackCreator::new_with_progress(
